@@ -18,7 +18,7 @@ prop("C10",
      quick=[{"re": "^TestC10$", "checks": 3000}],
      thorough=[{"re": "^TestC10$", "checks": 400000, "shards": 8, "timeout": 1500},
                {"re": "^$", "fuzz": "^FuzzC10$", "fuzztime": "90s", "checks": 1, "exclusive": True, "timeout": 400}],
-     rule="(shared backing, TestC10/shared) several values built over one byte slice are encoded one after another and the slice is scribbled on in between: every encoding equals the encoding of a private copy. rapid-generated RESP trees (depth<=4, all int64 incl. table boundaries, nil/empty/binary bulk, nil/empty arrays), "
+     rule="(retained, TestC10/retained) 2-40 values are encoded one after another (EncodeToBytes / MustEncodeToBytes) and every returned slice is compared with the reference only after the last one. (non-digit numbers) one-character numbers that are no digit, followed by the payload their byte value would announce, must be rejected. (shared backing, TestC10/shared) several values built over one byte slice are encoded one after another and the slice is scribbled on in between: every encoding equals the encoding of a private copy. rapid-generated RESP trees (depth<=4, all int64 incl. table boundaries, nil/empty/binary bulk, nil/empty arrays), "
           "streams of values + inline commands + keep-alive newlines read through bufio of generated size over a reader "
           "returning generated chunk sizes; constructed malformations (every proper prefix, CR/LF substitutions at structural "
           "positions, lengths < -1, non-numeric lengths, unknown type byte in array). Oracles: reference encoder "
@@ -164,7 +164,7 @@ prop("C18",
                {"re": "^TestC18Waiters$", "checks": 100000, "shards": 8, "timeout": 1700},
                {"re": "^TestC18Writers$", "checks": 100000, "shards": 4, "timeout": 1700},
                {"re": "^TestC18ReadDuringWrite$", "checks": 20000, "shards": 4, "timeout": 1700}],
-     rule="(sizes) file-backed rings with capacities far from any block alignment and empty-buffer reads at valid, evicted and future offsets are part of the single-goroutine machine. (read during a write, TestC18ReadDuringWrite) two readers keep reading offsets spread over the retained range while one Write larger than the ring is stored piecewise (optionally slowed through the hook): every read that succeeds returns the bytes written at its offset. Waiters also face 4 writes in a row (2-8 readers that read, wait again and must be woken again). (concurrent writers, TestC18Writers) 2-4 goroutines issue 2-5 writes each (sizes 1 to ring+5, each filled with a byte value of its own; optionally every partial store write slowed through the hook backlog.VerifSlowWrite): whatever the order, the retained log is a sequence of whole writes - no write's bytes appear in two places. (sequential) rapid state machine over Write(k) (k from 0 to 2*cap+5, so many wrap-arounds), ReadAt(k,o) with o drawn around rpos-3..rpos+3, "
+     rule="(liveness) after zero-length writes (and every 16th other write) the next call must return within 3 s. (sizes) file-backed rings with capacities far from any block alignment and empty-buffer reads at valid, evicted and future offsets are part of the single-goroutine machine. (read during a write, TestC18ReadDuringWrite) two readers keep reading offsets spread over the retained range while one Write larger than the ring is stored piecewise (optionally slowed through the hook): every read that succeeds returns the bytes written at its offset. Waiters also face 4 writes in a row (2-8 readers that read, wait again and must be woken again). (concurrent writers, TestC18Writers) 2-4 goroutines issue 2-5 writes each (sizes 1 to ring+5, each filled with a byte value of its own; optionally every partial store write slowed through the hook backlog.VerifSlowWrite): whatever the order, the retained log is a sequence of whole writes - no write's bytes appear in two places. (sequential) rapid state machine over Write(k) (k from 0 to 2*cap+5, so many wrap-arounds), ReadAt(k,o) with o drawn around rpos-3..rpos+3, "
           "wpos-3..wpos+3, the middle, 0 and random, NewReader, Reader.Read, IsValid, SeekTo (to the current offset, around the range edges), Offset, "
           "DataRange, Close; memory backlogs of 1,2,3,5 alignment units and file backlogs of 1 or 3 x 4 MiB; model = total written + capacity + "
           "position-dependent byte pattern; the caller's buffer is overwritten right after every Write (it owns it again); only calls the model says cannot block are issued, those beyond the write position under a 3 s watchdog. After every call: invalid-offset error iff o > wpos or o+cap < wpos, "
@@ -186,7 +186,7 @@ prop("C13",
             {"re": "^TestC13Huge$", "checks": 40}],
      thorough=[{"re": "^TestC13(Enumerate)?$", "checks": 3000000, "shards": 8, "timeout": 1700},
                {"re": "^TestC13Huge$", "checks": 2000, "shards": 4, "timeout": 1700}],
-     rule="(huge commands, TestC13Huge) MSET/MSETNX/DEL/UNLINK/PFMERGE with 32767-70000 keys (up to 140000 arguments), passing and filtered keys interleaved with period 2/3/7/1000, white or black list, against the same reference rewrite. (enumeration) every command of the tool's table x every valid key count 1..5 x every pass/fail pattern of its keys x {blacklist, "
+     rule="(retained result) the rewritten argument list of one command is compared again after the next command (a DEL of 1-6 keys) has been filtered. (huge commands, TestC13Huge) MSET/MSETNX/DEL/UNLINK/PFMERGE with 32767-70000 keys (up to 140000 arguments), passing and filtered keys interleaved with period 2/3/7/1000, white or black list, against the same reference rewrite. (enumeration) every command of the tool's table x every valid key count 1..5 x every pass/fail pattern of its keys x {blacklist, "
           "whitelist}, with values for MSET pairs, trailing options, BITOP's operation, B[LR]POP's timeout; (random) rapid-drawn command, key "
           "count, key contents (prefixes of / equal to / extending the listed prefixes, checkpoint-prefixed keys, arbitrary bytes, option values "
           "that look like keys), 0-3 prefixes as whitelist or blacklist or no filter, commands outside the table. Oracle: reference rewrite written "
@@ -262,7 +262,7 @@ prop("C20",
                {"re": "^TestC20Syncer$", "checks": 120000, "shards": 4, "timeout": 1700},
                {"re": "^TestC20SyncerWindow$", "checks": 24, "shards": 12, "timeout": 1700},
                {"re": "^TestC20SyncE2E$", "checks": 1200, "shards": 4, "timeout": 1700}],
-     rule="(complete Sync() start, TestC20SyncE2E) DbSyncer.Sync() on a cluster source of 2-3 fake nodes where the configured node may have been demoted: the SYNC/PSYNC link must be opened to the node that reports master. (syncer over the whole retry window, TestC20SyncerWindow) batches of 4-8 syncers run DbSyncer.updateSlotTopology with the real back-off (~21 s): nodes that never report master (the update must not return as if a master had been found) or a node that reports master only from its 2nd-7th INFO round on (the update must return with exactly that node). one rapid case = a batch of 80-120 shard scripts run concurrently (the retry back-off sleeps 6+5+..+1 s, so a case costs ~21 s of wall "
+     rule="(error replies) command errors are the replies a server sends (ERR, LOADING, NOAUTH, BUSY, MASTERDOWN), chosen by node and attempt. (complete Sync() start, TestC20SyncE2E) DbSyncer.Sync() on a cluster source of 2-3 fake nodes where the configured node may have been demoted: the SYNC/PSYNC link must be opened to the node that reports master. (syncer over the whole retry window, TestC20SyncerWindow) batches of 4-8 syncers run DbSyncer.updateSlotTopology with the real back-off (~21 s): nodes that never report master (the update must not return as if a master had been found) or a node that reports master only from its 2nd-7th INFO round on (the update must return with exactly that node). one rapid case = a batch of 80-120 shard scripts run concurrently (the retry back-off sleeps 6+5+..+1 s, so a case costs ~21 s of wall "
           "time whatever its size): 1-6 nodes in any order (the configured source need not be the master), and for each node and each of the 7 "
           "attempts one of {master, slave, connect error, command error, INFO without role line, INFO with look-alike lines before the role line}; "
           "shapes: one master, promoted replica with dead old source, master appearing at attempt j, no master, several masters, fully random. "
@@ -468,7 +468,7 @@ prop("C19",
      thorough=[{"re": "^TestC19$", "checks": 300000, "shards": 4, "timeout": 1700},
                {"re": "^TestC19Paths$", "checks": 2400, "shards": 12, "timeout": 1700},
                {"re": "^TestC19EachPath$", "checks": 240, "shards": 4, "timeout": 1700}],
-     rule="(descriptor format, TestC19/node-format) generated shard descriptors (1-3 targets, 0-2 replicas, host:port addresses) with passwords that are random, empty, equal to each other or a >=6-character piece of one of the node's own addresses, formatted with %v, %+v, %s, as pointer, through Sprint, inside an error and through String(): every occurrence of a password text in the output must lie inside a printed address. (safe options) generated password strings (some empty) in the four password fields: JSON, %v and %+v renderings of conf.GetSafeOptions() contain none "
+     rule="(probe connections, path probe-connection) the default probe-connection factory against a live and a vanished node with passwords that end in characters special to URLs and formats; multi-word auth types (auth <user>) in path auth-type-unknown. (descriptor format, TestC19/node-format) generated shard descriptors (1-3 targets, 0-2 replicas, host:port addresses) with passwords that are random, empty, equal to each other or a >=6-character piece of one of the node's own addresses, formatted with %v, %+v, %s, as pointer, through Sprint, inside an error and through String(): every occurrence of a password text in the output must lie inside a printed address. (safe options) generated password strings (some empty) in the four password fields: JSON, %v and %+v renderings of conf.GetSafeOptions() contain none "
           "of them and the raw fields are masked. (paths) two distinct high-entropy sentinels are configured as source/target password everywhere (options, "
           "SyncNode, connection helpers); a rapid case draws a run path and a log level {none,error,warn,info,debug} and runs that path's driver from the other "
           "properties on generated inputs: single-entry restore (5 cases), parallel full sync / restore mode, incremental sync, resume with cut enumeration and "
